@@ -1,0 +1,45 @@
+//! Verification instrumentation, compiled only with the `verif-hooks` feature.
+//!
+//! Thin public wrappers around the private NSEC / NSEC3 denial-of-existence decision
+//! procedures so that an external harness can call them directly.
+
+use crate::proto::{
+    dnssec::{
+        Proof,
+        rdata::{NSEC, NSEC3},
+    },
+    op::{Query, ResponseCode},
+    rr::{Name, Record},
+};
+
+/// Calls the validator's NSEC decision procedure.
+pub fn verify_nsec(
+    query: &Query,
+    soa_name: Option<&Name>,
+    response_code: ResponseCode,
+    answers: &[Record],
+    nsecs: &[(&Name, &NSEC)],
+) -> Proof {
+    super::verify_nsec(query, soa_name, response_code, answers, nsecs)
+}
+
+/// Calls the validator's NSEC3 decision procedure.
+pub fn verify_nsec3(
+    query: &Query,
+    soa_name: Option<&Name>,
+    response_code: ResponseCode,
+    answers: &[Record],
+    nsec3s: &[(&Name, &NSEC3)],
+    nsec3_soft_iteration_limit: u16,
+    nsec3_hard_iteration_limit: u16,
+) -> Proof {
+    super::verify_nsec3(
+        query,
+        soa_name,
+        response_code,
+        answers,
+        nsec3s,
+        nsec3_soft_iteration_limit,
+        nsec3_hard_iteration_limit,
+    )
+}
